@@ -50,8 +50,7 @@ func checksImageV1() {
 		`r.GetExtension() == this.Extension`,
 		`r.GetOptions() == this.Options`,
 		`r.GetSourceCodeInfo() == this.SourceCodeInfo`,
-		`r.GetBufExtension() == this.BufExtension`,
-		`len(ghost.s_unknown[r.ProtoReflect()]) == 0`}}
+		`r.GetBufExtension() == this.BufExtension`}}
 	cExt := contract{F, P, "(ImageFileExtension_builder) Build", 159, []string{
 		`r != nil`,
 		`r.HasIsImport() == (this.IsImport != nil) && r.GetIsImport() == s_boolOf(this.IsImport)`,
@@ -73,7 +72,7 @@ func checksImageV1() {
 
 	strs := []*string{nil, proto.String(""), proto.String("x")}
 	eds := []*descriptorpb.Edition{nil, descriptorpb.Edition_EDITION_2023.Enum(), descriptorpb.Edition(0).Enum()}
-	check("ImageFile_builder.Build copies every builder field into the message (all 16 clauses)", []contract{cFile},
+	check("ImageFile_builder.Build copies every builder field into the message (all 15 clauses)", []contract{cFile},
 		"every combination of nil / \"\" / \"x\" for Name, Package, Syntax, nil / 2023 / 0 for Edition, nil / empty / non-empty for the seven repeated fields (rotated), nil / non-nil for Options, SourceCodeInfo, BufExtension", func(t *T) {
 			i32s := [][]int32{nil, {}, {0, 2}}
 			ss := [][]string{nil, {}, {"a.proto", "b.proto"}}
@@ -127,7 +126,6 @@ func checksImageV1() {
 									t.Check(r.GetOptions() == b.Options, e[12], "%s", d)
 									t.Check(r.GetSourceCodeInfo() == b.SourceCodeInfo, e[13], "%s", d)
 									t.Check(r.GetBufExtension() == b.BufExtension, e[14], "%s", d)
-									t.Check(len(r.ProtoReflect().GetUnknown()) == 0, e[15], "%s", d)
 								}
 							}
 						}
